@@ -41,9 +41,16 @@ package main
 
 import (
 	"bytes"
+	"crypto"
+	"crypto/ecdsa"
+	"crypto/ed25519"
+	"crypto/elliptic"
+	"crypto/rand"
 	"crypto/rsa"
+	"crypto/sha1"
 	"crypto/tls"
 	"crypto/x509"
+	"crypto/x509/pkix"
 	"fmt"
 	"net"
 	"os"
@@ -54,17 +61,28 @@ import (
 	"sync"
 	"time"
 
+	"github.com/google/martian/v3/cybervillains"
 	mlog "github.com/google/martian/v3/log"
 	"github.com/google/martian/v3/mitm"
 	"verifharness/hx"
 )
 
-type world struct {
-	ca     *x509.Certificate
-	capriv *rsa.PrivateKey
-	roots  *x509.CertPool
-	epoch  time.Time
+// caKind is one configured CA: the property quantifies over "the configured
+// CA", so every clause is checked for several key types and signature
+// algorithms (NewConfig accepts any private key).
+type caKind struct {
+	name  string
+	cert  *x509.Certificate
+	priv  interface{}
+	roots *x509.CertPool
 }
+
+type world struct {
+	cas   map[string]*caKind // rsa (mitm.NewAuthority), ec (P-256), ed (Ed25519), cv (cybervillains fixture: RSA-1024, SHA1-RSA)
+	epoch time.Time
+}
+
+var caKinds = []string{"rsa", "ec", "ed", "cv"}
 
 var w world
 
@@ -123,6 +141,7 @@ func (r reqOp) token() string {
 // session = one mitm.Config and the per-case canonicalisation state.
 type session struct {
 	cfg     *mitm.Config
+	ca      *caKind
 	mu      sync.Mutex
 	idx     map[*tls.Certificate]int
 	firstPK *rsa.PublicKey
@@ -246,7 +265,15 @@ func (s *session) doReq(r reqOp) (out string) {
 		san = "N"
 	}
 	// chain to the CA, independent of host name and of "now"
-	_, cerr := leaf.Verify(x509.VerifyOptions{Roots: w.roots, CurrentTime: leaf.NotBefore.Add(time.Second)})
+	// (a time inside the leaf's window and as close to now as possible: the CA's own window is checked too)
+	ct := time.Now()
+	if ct.After(leaf.NotAfter) {
+		ct = leaf.NotAfter
+	}
+	if ct.Before(leaf.NotBefore) {
+		ct = leaf.NotBefore
+	}
+	_, cerr := leaf.Verify(x509.VerifyOptions{Roots: s.ca.roots, CurrentTime: ct})
 	pk, _ := leaf.PublicKey.(*rsa.PublicKey)
 	priv, _ := c.PrivateKey.(*rsa.PrivateKey)
 	keymatch := pk != nil && priv != nil && priv.PublicKey.Equal(pk)
@@ -256,16 +283,16 @@ func (s *session) doReq(r reqOp) (out string) {
 	}
 	samekey := pk != nil && s.firstPK.Equal(pk)
 	s.mu.Unlock()
-	shape := len(c.Certificate) == 2 && bytes.Equal(c.Certificate[0], leaf.Raw) && bytes.Equal(c.Certificate[1], w.ca.Raw)
+	shape := len(c.Certificate) == 2 && bytes.Equal(c.Certificate[0], leaf.Raw) && bytes.Equal(c.Certificate[1], s.ca.cert.Raw)
 	org := strings.Join(leaf.Subject.Organization, "\x00")
-	_, verr := leaf.Verify(x509.VerifyOptions{DNSName: r.vname, Roots: w.roots, CurrentTime: tvTime})
+	_, verr := leaf.Verify(x509.VerifyOptions{DNSName: r.vname, Roots: s.ca.roots, CurrentTime: tvTime})
 	if r.vname == "" {
 		// an empty DNSName would skip the host check: a client naming no host cannot verify anything
 		verr = fmt.Errorf("no name")
 	}
 	ob := ""
 	for _, o := range r.others {
-		_, e := leaf.Verify(x509.VerifyOptions{DNSName: o, Roots: w.roots, CurrentTime: tvTime})
+		_, e := leaf.Verify(x509.VerifyOptions{DNSName: o, Roots: s.ca.roots, CurrentTime: tvTime})
 		ob += b01(e == nil)
 	}
 	if ob == "" {
@@ -306,7 +333,7 @@ func (s *session) handshake(conf *tls.Config, r reqOp, tv *time.Time) bool {
 		})
 		return fixed
 	}
-	ccfg := &tls.Config{RootCAs: w.roots, Time: func() time.Time { t := now(); *tv = t; return t }}
+	ccfg := &tls.Config{RootCAs: s.ca.roots, Time: func() time.Time { t := now(); *tv = t; return t }}
 	natural := (r.sni == r.vname && r.sni != "" && net.ParseIP(r.sni) == nil) ||
 		(r.sni == "" && net.ParseIP(r.vname) != nil)
 	if natural {
@@ -324,7 +351,7 @@ func (s *session) handshake(conf *tls.Config, r reqOp, tv *time.Time) bool {
 			}
 			t := now()
 			*tv = t
-			_, err := cs.PeerCertificates[0].Verify(x509.VerifyOptions{DNSName: r.vname, Roots: w.roots, Intermediates: inter, CurrentTime: t})
+			_, err := cs.PeerCertificates[0].Verify(x509.VerifyOptions{DNSName: r.vname, Roots: s.ca.roots, Intermediates: inter, CurrentTime: t})
 			return err
 		}
 	}
@@ -463,17 +490,22 @@ func newSession(in []string) (*session, []string, bool) {
 	if len(in) < 3 || len(in[1]) < 2 || in[1][0] != 'v' || len(in[2]) < 1 || in[2][0] != 'o' {
 		return nil, nil, false
 	}
-	vms, err := strconv.Atoi(in[1][1:])
-	if err != nil {
+	vtok, kind := in[1][1:], "rsa"
+	if i := strings.IndexByte(vtok, ','); i >= 0 {
+		vtok, kind = vtok[:i], vtok[i+1:]
+	}
+	ca := w.cas[kind]
+	vms, err := strconv.ParseInt(vtok, 10, 64)
+	if err != nil || ca == nil || vms > 4000000000000 {
 		return nil, nil, false
 	}
-	cfg, err := mitm.NewConfig(w.ca, w.capriv)
+	cfg, err := mitm.NewConfig(ca.cert, ca.priv)
 	if err != nil {
 		return nil, nil, false
 	}
 	cfg.SetValidity(time.Duration(vms) * time.Millisecond)
 	cfg.SetOrganization(unhexS(in[2][1:]))
-	return &session{cfg: cfg, idx: map[*tls.Certificate]int{}}, in[3:], true
+	return &session{cfg: cfg, ca: ca, idx: map[*tls.Certificate]int{}}, in[3:], true
 }
 
 func runCase(in []string) []string {
@@ -737,8 +769,32 @@ type genCase struct {
 
 const hour = "v3600000"
 
+// vt: validity token with the CA kind; k cycles through the CA kinds.
+func vt(ms int64, k int) string {
+	kind := caKinds[((k%len(caKinds))+len(caKinds))%len(caKinds)]
+	if kind == "rsa" {
+		return fmt.Sprintf("v%d", ms)
+	}
+	return fmt.Sprintf("v%d,%s", ms, kind)
+}
+
+// validities exercised besides the default hour: 5 s, 10 years, 100 years
+// (NotBefore before 1950: GeneralizedTime).  Below 1 s is excluded by assumption.
+func pickValidity(r *hx.RNG) int64 {
+	switch k := r.Intn(10); {
+	case k < 6:
+		return 3600000
+	case k < 7:
+		return 5000
+	case k < 9:
+		return 315360000000
+	default:
+		return 3153600000000
+	}
+}
+
 func orgTok(r *hx.RNG) string {
-	orgs := []string{"Martian Proxy", "Test Organization", "ACME, Inc.", "Ünïcode Org", "o"}
+	orgs := []string{"Martian Proxy", "Test Organization", "ACME, Inc.", "Ünïcode Org", "o", "", "日本語の組織 / <b>&amp;\"quoted\"</b>", strings.Repeat("long organization name ", 12)}
 	return "o" + hx.HexS(orgs[r.Intn(len(orgs))])
 }
 
@@ -775,10 +831,11 @@ func generate(cfg *hx.Config, rng *hx.RNG, concOnly bool) []genCase {
 	for _, d := range ipv6s {
 		allNames = append(allNames, [2]string{d, "ipv6"})
 	}
-	for _, nc := range allNames {
+	for ni, nc := range allNames {
 		r := rng.Fork()
 		v, class := nc[0], nc[1]
-		in := []string{"SEQ", hour, orgTok(r)}
+		in := []string{"SEQ", vt(3600000, ni), orgTok(r)}
+		cfg.Count("ca=" + caKinds[ni%len(caKinds)])
 		var forms []reqOp
 		if class == "dns" || class == "dnsmixed" {
 			forms = append(forms,
@@ -813,6 +870,7 @@ func generate(cfg *hx.Config, rng *hx.RNG, concOnly bool) []genCase {
 		{"SEQ", hour, "o" + hx.HexS("Martian Proxy"), reqOp{kind: 'G', scope: "i", api: "F", fb: ":443"}.token(), reqOp{kind: 'H', scope: "i", api: "F", fb: ":443"}.token()},
 		{"SEQ", hour, "o" + hx.HexS("Martian Proxy"), reqOp{kind: 'G', scope: "i", api: "T", sni: "example.com", vname: "example.com"}.token(), reqOp{kind: 'G', scope: "i", api: "F"}.token(), reqOp{kind: 'G', scope: "i", api: "T"}.token()},
 	} {
+		in[1] = vt(3600000, len(cs))
 		cfg.Count("class=noname")
 		add("noname", in)
 	}
@@ -831,13 +889,19 @@ func generate(cfg *hx.Config, rng *hx.RNG, concOnly bool) []genCase {
 		f := reqOp{kind: 'G', scope: "o", api: "F", fb: h, vname: v}
 		g := reqOp{kind: 'G', scope: "o", api: "T", sni: h, vname: v}
 		cfg.Count("class=odd")
-		add("odd", []string{"SEQ", hour, "o" + hx.HexS("Martian Proxy"), f.token(), f.token(), g.token()})
+		add("odd", []string{"SEQ", vt(3600000, len(cs)), "o" + hx.HexS("Martian Proxy"), f.token(), f.token(), g.token()})
 	}
 
 	// 4. random scripts over a few names, all spellings, direct and handshake
 	for k := 0; k < 40*mult; k++ {
 		r := rng.Fork()
 		in := []string{"SEQ", hour, orgTok(r)}
+		{
+			vv, kk := pickValidity(r), r.Intn(len(caKinds))
+			in[1] = vt(vv, kk)
+			cfg.Count("ca=" + caKinds[kk])
+			cfg.Count(fmt.Sprintf("validity_ms=%d", vv))
+		}
 		type nm struct{ v, c string }
 		var names []nm
 		for i := r.Range(2, 4); i > 0; i-- {
@@ -873,7 +937,8 @@ func generate(cfg *hx.Config, rng *hx.RNG, concOnly bool) []genCase {
 		for strings.EqualFold(v2, v) {
 			v2, c2 = pickName(r)
 		}
-		in := []string{"SEQ", "v2000", orgTok(r)}
+		in := []string{"SEQ", vt(2000, k), orgTok(r)}
+		cfg.Count("ca=" + caKinds[k%len(caKinds)])
 		in = append(in, spell(r, v2, c2, cfg.Count).token(), spell(r, v, c, cfg.Count).token(),
 			"A-700", spell(r, v, c, cfg.Count).token(),
 			"A+300", spell(r, v, c, cfg.Count).token(), spell(r, v, c, cfg.Count).token(), spell(r, v2, c2, cfg.Count).token())
@@ -921,7 +986,8 @@ func genConc(cfg *hx.Config, rng *hx.RNG, add func(string, []string), n int, rac
 	for k := 0; k < n; k++ {
 		r := rng.Fork()
 		names := distinctNames(r, 4, false)
-		in := []string{"CONC", hour, orgTok(r)}
+		in := []string{"CONC", vt(3600000, k+1), orgTok(r)}
+		cfg.Count("ca=" + caKinds[(k+1)%len(caKinds)])
 		for t := 0; t < 16; t++ {
 			in = append(in, "T")
 			for j := r.Range(1, 2); j > 0; j-- {
@@ -964,10 +1030,11 @@ func genShared(cfg *hx.Config, rng *hx.RNG, add func(string, []string), nham, ne
 		if r.Chance(1, 4) {
 			fb = fbn
 		}
-		in := []string{"SHARED", hour, orgTok(r), fmt.Sprintf("n%d", rounds), "p0", "b" + hx.HexS(fb)}
+		in := []string{"SHARED", vt(3600000, k+2), orgTok(r), fmt.Sprintf("n%d", rounds), "p0", "b" + hx.HexS(fb)}
+		cfg.Count("ca=" + caKinds[(k+2)%len(caKinds)])
 		nth := 16
 		if expiry {
-			in[1], in[3], in[4] = "v2000", "n45", "p80"
+			in[1], in[3], in[4] = vt(2000, k+2), "n45", "p80"
 			nth = 8
 		}
 		mkop := func(form int, t int, pick int) string {
@@ -1019,13 +1086,10 @@ func main() {
 	cfg := hx.ParseFlags()
 	defer cfg.Close()
 	var err error
-	w.ca, w.capriv, err = mitm.NewAuthority("martian.proxy", "Martian Authority", 24*time.Hour)
-	if err != nil {
-		fmt.Fprintln(os.Stderr, "NewAuthority:", err)
+	if err = buildCAs(); err != nil {
+		fmt.Fprintln(os.Stderr, "building the CAs:", err)
 		os.Exit(2)
 	}
-	w.roots = x509.NewCertPool()
-	w.roots.AddCert(w.ca)
 	w.epoch = time.Now().Truncate(time.Second)
 
 	pre, replayOnly := cfg.Inputs()
@@ -1086,6 +1150,74 @@ func main() {
 	for i, c := range all {
 		cfg.Emit(hx.Case{Name: c.name, In: c.in, Out: outs[i]})
 	}
+}
+
+// buildCAs creates the configured-CA dimension once per run.
+func buildCAs() error {
+	w.cas = map[string]*caKind{}
+	put := func(name string, cert *x509.Certificate, priv interface{}) {
+		pool := x509.NewCertPool()
+		pool.AddCert(cert)
+		w.cas[name] = &caKind{name: name, cert: cert, priv: priv, roots: pool}
+	}
+	ca, priv, err := mitm.NewAuthority("martian.proxy", "Martian Authority", 24*time.Hour)
+	if err != nil {
+		return err
+	}
+	put("rsa", ca, priv)
+	selfSigned := func(pub crypto.PublicKey, priv crypto.Signer) (*x509.Certificate, error) {
+		pkix1, err := x509.MarshalPKIXPublicKey(pub)
+		if err != nil {
+			return nil, err
+		}
+		kid := sha1.Sum(pkix1)
+		serial, _ := rand.Int(rand.Reader, mitm.MaxSerialNumber)
+		tmpl := &x509.Certificate{
+			SerialNumber:          serial,
+			Subject:               pkix.Name{CommonName: "harness.ca", Organization: []string{"Harness Authority"}},
+			SubjectKeyId:          kid[:],
+			KeyUsage:              x509.KeyUsageDigitalSignature | x509.KeyUsageCertSign,
+			ExtKeyUsage:           []x509.ExtKeyUsage{x509.ExtKeyUsageServerAuth},
+			BasicConstraintsValid: true,
+			IsCA:                  true,
+			NotBefore:             time.Now().Add(-24 * time.Hour),
+			NotAfter:              time.Now().Add(24 * time.Hour),
+		}
+		raw, err := x509.CreateCertificate(rand.Reader, tmpl, tmpl, pub, priv)
+		if err != nil {
+			return nil, err
+		}
+		return x509.ParseCertificate(raw)
+	}
+	ek, err := ecdsa.GenerateKey(elliptic.P256(), rand.Reader)
+	if err != nil {
+		return err
+	}
+	ec, err := selfSigned(ek.Public(), ek)
+	if err != nil {
+		return err
+	}
+	put("ec", ec, ek)
+	dpub, dk, err := ed25519.GenerateKey(rand.Reader)
+	if err != nil {
+		return err
+	}
+	ed, err := selfSigned(dpub, dk)
+	if err != nil {
+		return err
+	}
+	put("ed", ed, dk)
+	// the CA shipped with martian (cmd/proxy default): RSA-1024, self-signed with SHA1-RSA
+	tc, err := tls.X509KeyPair([]byte(cybervillains.Cert), []byte(cybervillains.Key))
+	if err != nil {
+		return err
+	}
+	cv, err := x509.ParseCertificate(tc.Certificate[0])
+	if err != nil {
+		return err
+	}
+	put("cv", cv, tc.PrivateKey)
+	return nil
 }
 
 func hasSleep(in []string) bool {
